@@ -208,6 +208,19 @@ let op_lsp (args : str list) : str list =
     | Publish (u, v, _) -> Printf.sprintf "P %d %d %d" (int_of_n u.u_id) (if u.u_file then 1 else 0) (int_of_z v)
     | Reply (i, t) -> Printf.sprintf "R %d %d" (int_of_n i) (if t then 1 else 0)
     | ErrorReply (i, c) -> Printf.sprintf "E %d %d" (int_of_n i) (int_of_z c) in
+  let fr a =
+    match S.split_on_char ' ' a with
+    | ["H"; i] -> Shutdown (n i)
+    | ["Z"] -> Exit
+    | _ -> Msg (m a) in
+  if List.exists (fun a -> a = "Z" || (S.length a > 1 && S.sub a 0 2 = "H ")) args || (match args with "L" :: _ -> true | _ -> false) then begin
+    (* the life of the process: "L" first, then frames; answer: frames written | id of the shutdown answered or - | clean *)
+    let args = (match args with "L" :: r -> r | r -> r) in
+    let e = lsp_session (List.map fr args) in
+    [ S.concat ";" (List.map show e.e_out);
+      (match e.e_shutdown with Some i -> string_of_int (int_of_n i) | None -> "-");
+      (if e.e_clean then "1" else "0") ]
+  end else
   [ S.concat ";" (List.map show (lsp_run (List.map m args))) ]
 
 (* command line: cmd(0 check,1 tokenize,2 echo) | fs "p:F<c>|p:U|p:D<e,e>|..." | tok "c:code,code;..." |
